@@ -7,17 +7,18 @@ from .rules.refusals import rule_assert, rule_kwsig, rule_raise, rule_regkey
 from .rules.truthy import rule_truthy
 from .rules.purity import rule_pure, rule_args, rule_global, rule_memo
 from .rules.token import rule_token
-from .rules.graph import rule_keys, rule_order, rule_cover, rule_axiskey, rule_contig
+from .rules.graph import rule_keys, rule_order, rule_cover, rule_axiskey, rule_contig, rule_loopstore
 from .rules import misc as M
 from .rules.lazyrule import rule_lazy
 from .rules.pickle_nondet import rule_pickle, rule_nondet, rule_fillflow
 from .rules import pairs as PR
 from .rules import codes as CD
-from .rules.wiring import rule_passthrough_sort, rule_passthrough_engine, rule_counter, rule_globalidx, rule_sorted, rule_infresolve
+from .rules import members as MB
+from .rules.wiring import rule_passthrough_sort, rule_passthrough_engine, rule_counter, rule_globalidx, rule_sorted, rule_infresolve, rule_uniquefrom, rule_emptyidx, rule_fillnone
 
 PROPERTIES = {
     "C01": {
-        "rules": [rule_dispatch, rule_stable, rule_passthrough_engine, M.rule_varshift, PR.rule_pairs_perm],
+        "rules": [rule_dispatch, rule_stable, rule_passthrough_engine, M.rule_varshift, PR.rule_pairs_perm, PR.rule_layout, CD.rule_missingcode],
         "thorough": [selftest],
         "technique": "engine-dispatch model + sibling cross-check of kernel signatures (custom AST checker)",
         "level_text": "Static, all-paths: for every kernel name a blueprint can ask for and every engine, the implementation the dispatch "
@@ -27,7 +28,7 @@ PROPERTIES = {
         "explanation": "R-DISPATCH over (kernel, engine) resolutions and engine-module bindings; R-STABLE over argsort sites; R-PASSTHROUGH[engine]: every stage runs with the engine the user chose",
     },
     "C05": {
-        "rules": [rule_truthy, rule_fillflow, rule_parallel, rule_counter, CD.rule_identitycodes, CD.rule_labelvalue],
+        "rules": [rule_truthy, rule_fillflow, rule_parallel, rule_counter, CD.rule_identitycodes, CD.rule_labelvalue, CD.rule_missingcode],
         "thorough": [selftest],
         "technique": "def-use fill-family + boolean-context scan; counter-wiring table check (custom AST checker)",
         "level_text": "Static, all-paths: no fill-value-typed expression (nor the optional min_count) is ever coerced to bool, so falsy "
@@ -66,7 +67,7 @@ PROPERTIES = {
         "explanation": "R-ARGS, R-GLOBAL, R-MEMO, R-TOKEN",
     },
     "C19": {
-        "rules": [rule_raise, rule_defassign, rule_regkey, rule_kwsig, rule_assert, CD.rule_codewidth],
+        "rules": [rule_raise, rule_defassign, rule_regkey, rule_kwsig, rule_assert, CD.rule_codewidth, rule_loopstore, MB.rule_names, MB.rule_attr, MB.rule_dictkeys, rule_uniquefrom, rule_emptyidx, rule_fillnone],
         "thorough": [selftest],
         "technique": "CFG definite-assignment with guard correlation; call-graph reachability of raises; keyword/signature agreement of "
                      "every resolved call and partial; assert triage table",
@@ -75,7 +76,7 @@ PROPERTIES = {
                       "user-keyed registry lookup that is not converted, a call or partial whose keywords/arity the selected callee "
                       "does not accept (TypeError inside a task) -- and every assert is triaged (user-reachable ones are findings). "
                       "Completeness of up-front validation and 'auto works wherever map-reduce does' are not decided.",
-        "explanation": "R-RAISE, R-DEFASSIGN, R-REGKEY, R-KWSIG, R-ASSERT, R-CODEWIDTH (sentinel stores cannot overflow a narrow code dtype)",
+        "explanation": "R-RAISE, R-DEFASSIGN, R-REGKEY, R-KWSIG, R-ASSERT, R-CODEWIDTH (sentinel stores cannot overflow a narrow code dtype), R-LOOPSTORE (the planner cannot lose a cohort and trip its own assert)",
     },
     "C02": {
         "rules": [M.rule_plan, rule_algebra, rule_cover, PR.rule_pairs_dummyaxis],
@@ -88,16 +89,16 @@ PROPERTIES = {
         "explanation": "R-PLAN, R-ALGEBRA, R-COVER",
     },
     "C06": {
-        "rules": [rule_algebra, rule_order, rule_stable, rule_keys, rule_globalidx],
+        "rules": [rule_algebra, rule_order, rule_stable, rule_keys, rule_globalidx, rule_contig],
         "thorough": [selftest],
         "technique": "monoid-table arg rows; taint of block order through unordered containers; stable-sort sites; key injectivity",
         "level_text": "Static, all-paths: the four arg-reduction blueprints pair value/index kernels with matching polarity, NaN discipline, "
                       "fills, finalizer and index preprocessing; block ids reach block selections in positional order on every path; the "
                       "group sort is stable. Global-index arithmetic and tie-breaking are not decided.",
-        "explanation": "R-ALGEBRA (arg rows), R-ORDER, R-STABLE, R-KEYS",
+        "explanation": "R-ALGEBRA (arg rows), R-ORDER, R-STABLE, R-KEYS, R-GLOBALIDX, R-CONTIG (tree nodes combine adjacent blocks in order: ties and first/last resolve positionally)",
     },
     "C07": {
-        "rules": [M.rule_sentinel_ravel, PR.rule_pairs_groupers, CD.rule_codewidth, CD.rule_identitycodes, CD.rule_labelvalue, CD.rule_closedside],
+        "rules": [M.rule_sentinel_ravel, PR.rule_pairs_groupers, CD.rule_codewidth, CD.rule_identitycodes, CD.rule_labelvalue, CD.rule_closedside, CD.rule_missingcode, PR.rule_codedep],
         "thorough": [selftest],
         "technique": "CFG must-pass-through of a masked sentinel restore",
         "level_text": "Static, all-paths: after the per-grouper codes are combined arithmetically, every path to return restores the "
@@ -105,7 +106,7 @@ PROPERTIES = {
         "explanation": "R-SENTINEL on _ravel_factorized; R-PAIRS[groupers]; R-CODEWIDTH: every code array is an intp producer so code arithmetic cannot wrap; R-IDENTITYCODES",
     },
     "C08": {
-        "rules": [M.rule_sentinel_offset, M.rule_copermute, PR.rule_pairs_collapse, PR.rule_pairs_outinds, CD.rule_codewidth],
+        "rules": [M.rule_sentinel_offset, M.rule_copermute, PR.rule_pairs_collapse, PR.rule_pairs_outinds, CD.rule_codewidth, PR.rule_layout],
         "thorough": [selftest],
         "technique": "CFG must-pass-through of a masked sentinel restore; permutation agreement of labels and values",
         "level_text": "Static, all-paths: after per-slice offsetting of codes, every path to return restores the missing-label code under a "
@@ -122,7 +123,7 @@ PROPERTIES = {
         "explanation": "R-SCANTABLE, R-STABLE, R-PROMOTE",
     },
     "C11": {
-        "rules": [M.rule_dtypetable, M.rule_finalcast, M.rule_promote, PR.rule_pairs_outinds, M.rule_reindexdtype],
+        "rules": [M.rule_dtypetable, M.rule_finalcast, M.rule_promote, PR.rule_pairs_outinds, M.rule_reindexdtype, M.rule_subsumed],
         "thorough": [selftest],
         "technique": "dtype convention table; CFG must-pass-through of the final cast; access-path agreement of announced meta",
         "level_text": "Static, all-paths: blueprint dtype declarations follow the NumPy convention table, every path of the finalizer casts "
@@ -159,7 +160,7 @@ PROPERTIES = {
         "explanation": "R-COLLIDE, R-CASTORDER, R-INFRESOLVE, R-VARSHIFT",
     },
     "C03": {
-        "rules": [rule_keys, rule_order, rule_axiskey, rule_global, rule_algebra, rule_contig],
+        "rules": [rule_keys, rule_order, rule_axiskey, rule_global, rule_algebra, rule_contig, rule_pure],
         "thorough": [selftest],
         "technique": "def-use closure of graph keys over enclosing loops; taint (unordered source -> block selection) with sanitizers; "
                      "module-state scan; associativity column of the monoid table",
@@ -168,20 +169,21 @@ PROPERTIES = {
                       "block selection through an unordered container, every tree node brackets a contiguous ascending run of blocks, no reachable code "
                       "touches module state, and every combine operator is a row of the (associative) monoid table. Floating-point re-association, the tree-depth arithmetic and "
                       "actual schedules are not decided.",
-        "explanation": "R-KEYS, R-ORDER, R-AXISKEY, R-GLOBAL, R-ALGEBRA, R-CONTIG",
+        "explanation": "R-KEYS, R-ORDER, R-AXISKEY, R-GLOBAL, R-ALGEBRA, R-CONTIG, R-PURE (no task writes into a value another task may read: the order of unordered tasks cannot matter)",
     },
     "C09": {
-        "rules": [rule_cover, rule_keys, rule_axiskey, rule_token],
+        "rules": [rule_cover, rule_keys, rule_axiskey, rule_token, rule_loopstore],
         "thorough": [selftest],
         "technique": "def-use closure checks on the planner's cohort->blocks map and on cohort sub-tree keys; content-named subset layers",
         "level_text": "Static, all-paths: the block set stored for a merged cohort is computed from the blocks of every member label (and "
-                      "exact cohorts are keyed by each label's own block set), cohort sub-trees write pairwise distinct keys and every "
+                      "exact cohorts are keyed by each label's own block set), the cohort map never silently overwrites an entry "
+                      "(two merged cohorts spanning the same blocks are united), cohort sub-trees write pairwise distinct keys and every "
                       "cohort's subset layer is content-named. The partition/cover of labels produced by the heuristics is data dependent "
                       "and not decided.",
-        "explanation": "R-COVER, R-KEYS, R-AXISKEY, R-TOKEN",
+        "explanation": "R-COVER, R-KEYS, R-AXISKEY, R-TOKEN, R-LOOPSTORE",
     },
     "C04": {
-        "rules": [rule_algebra, rule_parallel, rule_infresolve],
+        "rules": [rule_algebra, rule_parallel, rule_infresolve, M.rule_subsumed],
         "thorough": [selftest, user_blueprints],
         "technique": "registry constant-evaluation + table comparison (custom AST checker)",
         "level_text": "Static, all-paths: every registered blueprint's (block kernel, combine, intermediate fill, intermediate dtype, "
